@@ -2669,6 +2669,12 @@ func (s *Server) serveConnCounted(c net.Conn, countConcurrency bool) error {
 			previousWriteTimeout = 0
 		}
 
+		if rs, ok := ctx.Request.bodyStream.(*requestStream); ok && !rs.drained() {
+			// The handler left a part of the streamed request body unread.
+			// Its bytes are still on the connection, so it cannot be reused.
+			connectionClose = true
+		}
+
 		connectionClose = connectionClose ||
 			(s.MaxRequestsPerConn > 0 && connRequestNum >= uint64(s.MaxRequestsPerConn)) || // #nosec G115
 			ctx.Response.Header.ConnectionClose() ||
